@@ -50,6 +50,10 @@ CLAIMED = {
          "Exploration by runtime monitoring: a zoo workspace that triggers diagnostic types 1-10 and 12-21 (22, 26 in config-file mode) in files of four directories is analysed under each single flag off, each single flag on, random flag subsets, master off, error-ignore patterns (file, folder, regex, non-matching, invalid regex) and analysis-ignore patterns, each delivered as initialization options, as a later didChangeConfiguration and as luahelper.json; the published view must equal the all-enabled view of the same delivery mode filtered by the configuration (analysis-ignore: the all-enabled view of the workspace without those files). Invalid patterns must leave the server alive.",
          "The oracle is differential against the all-enabled run of the same server. Types 11 and 23-25, 27-29 are not produced by the zoo; patterns that match by substring but not as a path component are not generated (the documentation is silent on them).",
          "DESIGN.md 3/C17"),
+ "C04": ("online monitor: every range of every answer/notification sliced out of the client's own text (well-formedness + text under named ranges)",
+         "Exploration by runtime monitoring: files of one-line statements, each preceded (or interleaved) on its line with a prefix of one of 26 classes (tabs, short strings with every escape form and 2/3/4-byte characters, line continuations, \\z, long strings and comments of several levels, with or without line breaks) and rendered with LF, CRLF or CR, are loaded into the real server; every range in publishDiagnostics, definition, references, documentHighlight, rename, documentSymbol and workspace/symbol answers must lie inside the client's own text with start <= end and, where it designates a named entity (variables; diagnostics 2/3/4/13/17 quoting a name), cover exactly that identifier; symbol ranges must contain the declared name.",
+         "Judged on the client's text only (R-text line/UTF-16 model). Whether the right entity was returned is C05/C06. Symbol selectionRange == range is accepted (LSP allows it). Member names are not queried.",
+         "DESIGN.md 3/C04"),
 }
 
 PENDING_REASON = "check not built yet in this revision of /verif (work in progress; see DESIGN.md section 3 for the planned monitor)"
